@@ -50,17 +50,40 @@ CORPUS = {
                                      ["submit", _e(7777)], ["result", 7777]]),
     "idle_kill_then_probe": _case(_cfg(max_workers=2), [["submit", _e(0)], ["result", 0], ["sleep", 1.0], ["kill", 1, -9], ["sleep", 50.0],
                                                        ["submit", _e(1)], ["wait_all"]]),
+    # one worker idle-times out while the other is busy: the pool is partially populated when the next submit respawns
+    "partial_pool_respawn": _case(_cfg(max_workers=2, timeout=0.5),
+                                  [["submit", {"kind": "gate", "token": 0, "g": 0}], ["submit", _e(1)], ["result", 1], ["sleep", 3.0],
+                                   ["submit", _e(2)], ["result", 2], ["wait_all"], ["shutdown", True, False]],
+                                  [["sleep", 6.0], ["open_gate", 0]]),
+    # a grow request whose new worker dies at start-up
+    "resize_grow_new_worker_dies": _case(_cfg(executor="reusable", max_workers=1, timeout=1000),
+                                         [["get", {"max_workers": 1, "timeout": 1000, "reuse": "auto", "kill_workers": False}],
+                                          ["submit", _e(0)], ["result", 0],
+                                          ["get", {"max_workers": 2, "timeout": 1000, "reuse": "auto", "kill_workers": False}],
+                                          ["get", {"max_workers": 2, "timeout": 1000, "reuse": "auto", "kill_workers": False}],
+                                          ["submit", _e(1)], ["wait_all"]],
+                                         faults=[{"worker": 1, "at": 3, "cause": -9}]),
+    # a grow request during which the old (idle) worker is killed from outside
+    "resize_grow_old_worker_killed": _case(_cfg(executor="reusable", max_workers=1, timeout=1000),
+                                           [["get", {"max_workers": 1, "timeout": 1000, "reuse": "auto", "kill_workers": False}],
+                                            ["submit", _e(0)], ["result", 0], ["sleep", 5.0],
+                                            ["get", {"max_workers": 3, "timeout": 1000, "reuse": "auto", "kill_workers": False}],
+                                            ["sleep", 50.0],
+                                            ["get", {"max_workers": 3, "timeout": 1000, "reuse": "auto", "kill_workers": False}],
+                                            ["submit", _e(7777)], ["result", 7777]],
+                                           [["sleep", 5.0], ["kill", 0, -9]]),
 }
 
 FOR = {
     "C01": ["echo_shutdown", "unp_arg_del", "unp_arg_shutdown", "pending_del", "timeout0_seq", "nowait_shutdown", "exit_with_pending",
-            "two_submitters", "respawn_dies_at_start"],
-    "C02": ["die_then_probe", "respawn_dies_at_start", "idle_kill_then_probe"],
+            "two_submitters", "respawn_dies_at_start", "partial_pool_respawn", "resize_grow_new_worker_dies",
+            "resize_grow_old_worker_killed"],
+    "C02": ["die_then_probe", "respawn_dies_at_start", "idle_kill_then_probe", "partial_pool_respawn"],
     "C03": ["cancel_race", "timeout0_seq"],
     "C04": ["unp_arg_shutdown", "unp_res"],
-    "C05": ["echo_shutdown", "unp_arg_del", "pending_del", "nowait_shutdown", "exit_with_pending"],
+    "C05": ["echo_shutdown", "unp_arg_del", "pending_del", "nowait_shutdown", "exit_with_pending", "resize_grow_old_worker_killed"],
     "C06": ["kill_shutdown"],
-    "C07": ["timeout0_seq", "timeout_small_seq"],
-    "C09": ["reusable_crash_get", "resize_idle_kill_probe"],
-    "C10": ["reusable_resize"],
+    "C07": ["timeout0_seq", "timeout_small_seq", "partial_pool_respawn"],
+    "C09": ["reusable_crash_get", "resize_idle_kill_probe", "resize_grow_old_worker_killed"],
+    "C10": ["reusable_resize", "resize_grow_new_worker_dies", "resize_grow_old_worker_killed"],
 }
